@@ -964,6 +964,9 @@ func (pin *Pin) ProtoMarshal() ([]byte, error) {
 	// decoded as null, which is fine.
 	origins := make([][]byte, len(pin.Origins))
 	for i, orig := range pin.Origins {
+		if orig == nil {
+			return nil, errors.New("pin has a nil origin multiaddress")
+		}
 		origins[i] = orig.Bytes()
 	}
 
